@@ -217,6 +217,47 @@ fn run_overlap(cap: usize, rng: &mut rand::rngs::StdRng) -> Vec<Value> {
     ev
 }
 
+/// A push made from a thread-local destructor while its thread exits (a per-thread "record a last sample on exit" guard),
+/// installed before the thread's first push so that it is destroyed after anything the pushes themselves put into
+/// thread-local storage: pushing never panics, whatever else has been torn down, and the value counts like any other.
+fn run_tls(cap: usize, n: usize) -> Value {
+    use std::cell::RefCell;
+    use std::sync::atomic::{AtomicUsize, Ordering::SeqCst};
+    struct ExitGuard {
+        res: Arc<AtomicSamplingReservoir>,
+        panicked: Arc<AtomicUsize>,
+    }
+    impl Drop for ExitGuard {
+        fn drop(&mut self) {
+            let r = self.res.clone();
+            if std::panic::catch_unwind(std::panic::AssertUnwindSafe(move || r.push(777.0))).is_err() {
+                self.panicked.fetch_add(1, SeqCst);
+            }
+        }
+    }
+    thread_local! { static EXIT: RefCell<Option<ExitGuard>> = RefCell::new(None); }
+    let res = Arc::new(AtomicSamplingReservoir::new(cap));
+    let panicked = Arc::new(AtomicUsize::new(0));
+    let (r2, p2) = (res.clone(), panicked.clone());
+    let prev = std::panic::take_hook();
+    std::panic::set_hook(Box::new(|_| {}));
+    let joined = std::thread::spawn(move || {
+        EXIT.with(|e| *e.borrow_mut() = Some(ExitGuard { res: r2.clone(), panicked: p2 }));
+        for i in 0..n {
+            r2.push(i as f64);
+        }
+    })
+    .join()
+    .is_ok();
+    std::panic::set_hook(prev);
+    let (mut len, mut rate) = (0usize, 0i64);
+    res.consume(|mut d| {
+        len = d.by_ref().count();
+        rate = (d.sample_rate() * 1_000_000.0).round() as i64;
+    });
+    json!({"p": 0, "ev": "tls", "a": [cap, n, panicked.load(SeqCst), joined as i64, len, rate]})
+}
+
 /// Real-parallel hammer: several pushers and a consumer run freely on a small reservoir. Schedule-independent facts only:
 /// no push panics, and every overflowing push drew from exactly the range its own claimed index prescribes (the pair is
 /// read from the thread's own hook events `res.claim.post [idx, cap]` / `res.rand.post [range]`).
@@ -401,6 +442,15 @@ fn main() {
                 for e in &ev {
                     w.put(e);
                 }
+            }
+            summary["runs"] = json!(runs);
+        }
+        "tls" => {
+            let runs: usize = args.num("runs", 12);
+            for _ in 0..runs {
+                let n = rng.random_range(0..=(3 * cap + 3));
+                w.put(&json!({"p": 0, "ev": "reset", "a": [cap]}));
+                w.put(&run_tls(cap, n));
             }
             summary["runs"] = json!(runs);
         }
